@@ -10,7 +10,7 @@ RULE = (
     "(midpoint, equal-step) edges with analytic Jacobians, permuted vertex list, arbitrary ids, 0..3 extra fixed vertices, fix_first_pose in "
     "{T,F}; every component holds a fixed pose. Oracle: optimize(tol=0,max_iter=1), recover the applied increment per vertex with the reference "
     "model and compare with the dense reference normal equations (AD Jacobians, explicit loops, numpy.linalg.solve). "
-    "Non-trivial = parallel edge, reversed edge, mixed dimensions, >=2 fixed vertices or an n-ary custom edge; distinct = hash of the case."
+    "Non-trivial = parallel edge, reversed edge, mixed dimensions, >=2 fixed vertices or an n-ary custom edge; distinct = hash of the case. Also: edge objects re-used from an earlier graph that has moved since (multi-start); a common information scale 1e-12..1e9; the same edge object listed twice; integer / numpy fixed flags; with probability 0.4% a consistent linear graph of 4096..16385 edges (up to ~49000 unknowns) on which one step must land on the ground truth."
 )
 BUDGET = {"quick": 16 * 1500, "thorough": 16 * 8000}
 TOLERANCES = {
